@@ -342,6 +342,9 @@ func (r *rec) Receive(c *actor.Context) {
 		ever := h.incs[succ] > 0
 		h.mu.Unlock()
 		if !ever { // the id is free now: a successor takes it over (Spawn returns after its Started)
+			h.mu.Lock()
+			h.reKids++ // (the id is in use again: what the exhaustion / stop clauses say about "the" actor of an id does not apply)
+			h.mu.Unlock()
 			c.Engine().Spawn(h.producer(succ), "a", h.opts(succ)...)
 			if h.onSpret != nil {
 				h.onSpret(succ)
